@@ -55,6 +55,11 @@ class ShapeInterp:
 
     # ---- conditions
     def cond(self, t):
+        if isinstance(t, ast.BoolOp):
+            vals = [self.cond(v) for v in t.values]
+            return all(vals) if isinstance(t.op, ast.And) else any(vals)
+        if isinstance(t, ast.UnaryOp) and isinstance(t.op, ast.Not):
+            return not self.cond(t.operand)
         s = src(t).replace(' ', '')
         table = {
             'type(exp_data)islist': self.sc['list'],
@@ -62,8 +67,10 @@ class ShapeInterp:
             'type(exp_data)ispd.DataFrame': not self.sc['list'],
             'type(df)isnotpd.DataFrame': False,
             'self.time_column': True,
-            'type(self.measurements)islistandlen(self.measurements)==1': self.sc['M1'],
-            'type(self.measurements)islistandlen(self.measurements)>1': not self.sc['M1'],
+            'type(self.measurements)islist': True,
+            'len(self.measurements)==1': self.sc['M1'],
+            'len(self.measurements)>1': not self.sc['M1'],
+            'len(self.measurements)>=2': not self.sc['M1'],
             'T!=len(timepoint_i)': False,
             'self.debug': False,
         }
@@ -379,6 +386,10 @@ def check_likelihood(ctx, cname, data_attr, stochastic):
     ps = en.run(nl.body, paths.State())
     ctx.paths += len(ps)
     problems = []
+    defs = {k_: v_ for k_, v_ in util.single_defs(f).items() if k_ not in ('timepoints', 'ans', 'dif', 'error')}
+
+    def txt(node):
+        return src(util.inline(node, defs)).replace(' ', '')
     for p in ps:
         ev = p.events
         i_sim = paths.index_of(p, lambda e: e.kind == 'stmt' and (paths.stmt_calls(e.node, 'simulate') or paths.stmt_calls(e.node, 'delay_simulate')))
@@ -387,13 +398,16 @@ def check_likelihood(ctx, cname, data_attr, stochastic):
                 continue
             problems.append('a trajectory is not simulated')
             continue
-        pre = [util.stmt_key(e.node).replace(' ', '') for e in ev[:i_sim] if e.kind == 'stmt']
+        pre = [util.stmt_key(e.node).replace(' ', '') for e in ev[:i_sim] if e.kind == 'stmt'] + \
+              [txt(e.node.value) for e in ev[:i_sim] if e.kind == 'stmt' and isinstance(e.node, ast.Expr)]
         if not any(t in ('timepoints=self.%s.get_timepoints()[%s,:]' % (data_attr, n), 'timepoints=self.%s.get_timepoints()' % data_attr) for t in pre):
             problems.append('the time points of trajectory n are not selected before simulating')
         if 'self.csim.set_initial_state(self.get_initial_state(%s))' % n not in pre:
             problems.append('the initial state of trajectory n is not set before simulating')
-        tests = {src(e.node).replace(' ', ''): e.info for e in ev[:i_sim] if e.kind == 'test'}
+        tests = {txt(e.node): e.info for e in ev[:i_sim] if e.kind == 'test'}
         pc = tests.get('self.get_initial_params(%s)isnotNone' % n)
+        if pc is None and 'self.get_initial_params(%s)isNone' % n in tests:
+            pc = not tests['self.get_initial_params(%s)isNone' % n]
         if pc is None:
             problems.append('the parameter condition of trajectory n is not consulted before simulating')
         elif pc and 'self.set_init_params(self.get_initial_params(%s))' % n not in pre:
